@@ -126,10 +126,14 @@ Definition scase_ok (c : scase) : bool :=
 (* oracle tables: (exact argument the model asks for, argument the implementation passed, value returned) *)
 Definition sin_table := list (Q * Q * Q).
 Definition exp_table := list (Q * Q * C).
-Fixpoint lookup_sin (t : sin_table) (q : Q) : Q :=
-  match t with [] => 2 | (a, _, v) :: r => if Qeq_bool a q then v else lookup_sin r q end.
-Fixpoint lookup_exp (t : exp_table) (q : Q) : C :=
-  match t with [] => (2, 2) | (a, _, v) :: r => if Qeq_bool a q then v else lookup_exp r q end.
+(* keys are emitted in lowest terms; the queried argument is reduced once and compared structurally *)
+Definition qsame (a b : Q) : bool := Z.eqb (Qnum a) (Qnum b) && Pos.eqb (Qden a) (Qden b).
+Fixpoint lookup_sin' (t : sin_table) (q : Q) : Q :=
+  match t with [] => 2 | (a, _, v) :: r => if qsame a q then v else lookup_sin' r q end.
+Definition lookup_sin (t : sin_table) (q : Q) : Q := lookup_sin' t (Qred q).
+Fixpoint lookup_exp' (t : exp_table) (q : Q) : C :=
+  match t with [] => (2, 2) | (a, _, v) :: r => if qsame a q then v else lookup_exp' r q end.
+Definition lookup_exp (t : exp_table) (q : Q) : C := lookup_exp' t (Qred q).
 
 Record rfpoint := mkPt { p_x : list Q; p_sin : sin_table; p_obs : option (list C) }.
 Record rfcase := mkRf { f_in : nat; f_out : nat; f_terms : nat; f_center : C; f_amp : Q; f_cplx : bool;
@@ -212,11 +216,21 @@ Definition last_pass_ok (c : qcase) (cplx : bool) (M : fmat) : bool :=
     && match s_det c with
        | DNone => qclose_rel eps9 (a_norm a * a_norm a) (mnormsq dim dim W) (mnormsq dim dim W)
        | DOne =>
+           (* det answer is the determinant; the root answer is an n-th root of what the model hands to np.power; with
+              these two, det M = 1 is C12_square_matrices_sound *)
            cclose_rel eps9 (a_det a) (mdetr dim W) (det_scale dim W)
-           && cclose_rel eps9 (mdetr dim Mm) c1 (det_scale dim Mm)
+           && (let tgt := if negb cplx || symm_eqb (s_sym c) SHerm || symm_eqb (s_sym c) SAHerm
+                          then (if Qltb 0 (cre (a_det a)) then cofQ (cre (a_det a)) else cofQ (- cre (a_det a)))
+                          else a_det a in
+               cclose_rel eps9 (cpow (cred (a_root a)) dim) tgt (cabs1 tgt))
        | DZero =>
+           (* det answer is the determinant; the matrix handed to the final normalisation has determinant 0 (this is
+              where the eigenvalue answers are checked); M is a real multiple of it by C12_square_matrices_sound *)
            cclose_rel eps9 (a_det a) (mdetr dim W) (det_scale dim W)
-           && cclose_rel eps9 (mdetr dim Mm) c0 (det_scale dim Mm)
+           && match make_det_zero (s_sym c) cplx dim a Wm with
+              | Done Z _ => let Zm := materialize dim dim Z in cclose_rel eps9 (mdetr dim Zm) c0 (det_scale dim Zm)
+              | _ => false
+              end
        end
   end.
 
@@ -722,7 +736,7 @@ def rf_check_values(cfg, f, xs, val, res, key_extra, forced=None):
                                   % (dev, amp, cfg['input_dim'], cfg['num_terms'])))
 
 
-def run_rf_config(ctx, res, rng, rec, cfg, n_draws, n_points_coq, n_points, terms, metas):
+def run_rf_config(ctx, res, rng, rec, cfg, n_draws, n_points_coq, n_points, terms, metas, coq_draws=99):
     import numpy as np
     from mitxgraders import RandomFunction
     from mitxgraders.exceptions import ConfigError
@@ -797,7 +811,7 @@ def run_rf_config(ctx, res, rng, rec, cfg, n_draws, n_points_coq, n_points, term
             if not same:
                 res.witnesses.append({'key': 'rf-fixed:%r' % (cfg,), 'kind': 'rf', 'cfg': repr(cfg), 'point': repr(xs),
                                       'what': 'the drawn function changed: %r then %r' % (v, v2)})
-        if points:
+        if points and d < coq_draws:
             terms.append(rf_case_term(cfg, (A, P, B, Cc), ex, points))
             metas.append(('rf', repr(cfg), d))
 
@@ -831,7 +845,9 @@ def run_random_functions(ctx, res, rng, rec, terms, metas):
     grid = rf_grid('quick' if quick else 'thorough', rng)
     run_rf_corpus(res, rec)
     for cfg in grid:
-        run_rf_config(ctx, res, rng, rec, cfg, 2 if quick else 5, 2 if quick else 3, 25 if quick else 50, terms, metas)
+        size = cfg['input_dim'] * cfg['output_dim'] * cfg['num_terms']
+        run_rf_config(ctx, res, rng, rec, cfg, 3 if quick else 6, 2 if quick else 3, 25 if quick else 50, terms, metas,
+                      coq_draws=(1 if size > 12 else 2) if quick else (2 if size > 12 else 3))
     res.distribution['random_function_configs'] = len(grid)
 
 
@@ -1229,7 +1245,7 @@ def run_squares(ctx, res, rng, rec, terms, metas):
     from mitxgraders.exceptions import ConfigError
     quick = ctx['tier'] == 'quick' and not ctx['escalate']
     n_oracle = 20 if quick else 40
-    n_coq = 2 if quick else 6
+    n_coq = 2 if quick else 4
     accepted = rejected = 0
     dist = {}
     for k, base in enumerate(square_grid((2, 3, 4, 5))):
@@ -1263,7 +1279,7 @@ def run_squares(ctx, res, rng, rec, terms, metas):
                 res.witnesses.append({'key': 'square:%r' % (base,), 'kind': 'square', 'cfg': repr(cfg), 'draw': d, 'what': b,
                                       'sample': repr(np.asarray(arr).tolist())})
             res.nontrivial.add(('square', repr(base), d))
-            if d >= n_coq:
+            if d >= (n_coq if dim <= 3 else n_coq // 2):
                 continue
             calls = rec.calls[n0:]
             passes = split_passes(calls, (dim, dim), cplx)
@@ -1325,21 +1341,50 @@ def run(ctx):
             timing[name] = round(time.time() - t0, 1)
             rec.calls = []
     hdr = HEADER + AGREE_DEFS
-    jobs = [('c12_scalar', 'scase_ok', s_terms, s_metas, 600, 'scase'),
-            ('c12_rf', 'rfcase_ok', f_terms, f_metas, max(1, len(f_terms) // 10 + 1), 'rfcase'),
-            ('c12_array', 'acase_ok', a_terms, a_metas, max(1, len(a_terms) // 6 + 1), 'acase'),
-            ('c12_square', 'qcase_ok', q_terms, q_metas, max(1, len(q_terms) // 24 + 1), 'qcase')]
-    for tag, fn, terms, metas, shard, ty in jobs:
+    big = not (ctx['tier'] == 'quick' and not ctx['escalate'])
+    jobs = [('c12_scalar', 'scase_ok', s_terms, s_metas, 3 if not big else 8, 'scase'),
+            ('c12_rf', 'rfcase_ok', f_terms, f_metas, 12 if not big else 32, 'rfcase'),
+            ('c12_array', 'acase_ok', a_terms, a_metas, 3 if not big else 12, 'acase'),
+            ('c12_square', 'qcase_ok', q_terms, q_metas, 14 if not big else 48, 'qcase')]
+    # one pool for all four families (at most core.NPROC coqc processes at a time); inside a family the cases are
+    # dealt round-robin so that every file gets the same mix of sizes
+    files, plan = [], []
+    for tag, fn, terms, metas, nshards, ty in jobs:
         if not terms:
             continue
-        t0 = time.time()
-        n, failing, errors = core.eval_agreement(tag, hdr, fn, terms, shard=shard, case_type=ty)
-        timing['coq_' + tag] = round(time.time() - t0, 1)
-        res.programs += n
-        res.corr_errors += errors
+        nshards = max(1, min(nshards, len(terms)))
+        for k in range(nshards):
+            idx = list(range(k, len(terms), nshards))
+            text = (hdr + '\nDefinition verif_cases : list (%s) :=\n  [ %s ].\n' % (ty, '\n  ; '.join(terms[i] for i in idx)) +
+                    'Fixpoint verif_failing {A} (f : A -> bool) (l : list A) (i : nat) : list nat :=\n'
+                    '  match l with nil => nil | x :: r => if f x then verif_failing f r (S i) '
+                    'else i :: verif_failing f r (S i) end.\n'
+                    'Eval vm_compute in (verif_failing (%s) verif_cases 0).\n' % fn)
+            files.append(('%s_%04d' % (tag, k), text))
+            plan.append((tag, idx))
+    import glob
+    import os
+    for old in glob.glob(os.path.join(core.CASES, 'c12_*.v')):
+        os.remove(old)
+    # heaviest files first
+    order = sorted(range(len(files)), key=lambda i: -len(files[i][1]))
+    t0 = time.time()
+    outs = core.run_case_files([files[i] for i in order])
+    timing['coq_all'] = round(time.time() - t0, 1)
+    by_tag = {tag: (terms, metas) for tag, fn, terms, metas, nshards, ty in jobs}
+    for pos, (name, rc, out) in zip(order, outs):
+        tag, idx = plan[pos]
+        terms, metas = by_tag[tag]
+        failing = core.failing_indices(out) if rc == 0 else None
+        if failing is None:
+            res.corr_errors.append((name, out[-2000:]))
+            continue
         for i in failing:
-            res.disagreements.append({'kind': tag, 'case': repr(metas[i]), 'term': terms[i][:600]})
-        res.distribution[tag + '_cases'] = n
+            g = idx[i]
+            res.disagreements.append({'kind': tag, 'case': repr(metas[g]), 'term': terms[g][:600]})
+    for tag, fn, terms, metas, nshards, ty in jobs:
+        res.programs += len(terms)
+        res.distribution[tag + '_cases'] = len(terms)
     res.distribution['seconds'] = timing
     if q_terms:
         res.samples.append({'square_case': q_metas[len(q_metas) // 2], 'term_prefix': q_terms[len(q_terms) // 2][:300]})
